@@ -37,7 +37,7 @@ from .._dns import (
     DNSService,
     DNSText,
 )
-from .._exceptions import BadTypeInNameException
+from .._exceptions import BadTypeInNameException, NamePartTooLongException
 from .._history import QuestionHistory
 from .._logger import log
 from .._protocol.outgoing import DNSOutgoing
@@ -857,7 +857,14 @@ class ServiceInfo(RecordUpdateListener):
                         # but keep waiting for answers in case another
                         # client on the network is asking the same
                         # question or they have not arrived yet.
-                        zc.async_send(out, addr, port)
+                        try:
+                            zc.async_send(out, addr, port)
+                        except NamePartTooLongException:
+                            # The server name came from an SRV record received from the
+                            # network and cannot be written back (a label that decodes
+                            # to more than 63 bytes). There is nothing to ask for; keep
+                            # waiting in case a usable record arrives before the timeout.
+                            log.debug("Cannot ask for the addresses of %r", self.server)
                     next_ = now + delay
                     next_ += self._get_random_delay()
                     if this_question_type is QM_QUESTION and delay < _DUPLICATE_QUESTION_INTERVAL:
